@@ -1038,25 +1038,83 @@ def short(case):
 # --------------------------------------------------------------------------
 # workers
 
+def cfg_tag(cfg):
+    return '%s/%s/%dD/%darr/%s%s' % (cfg['api'], cfg['method'], cfg['dim'], cfg['narr'],
+                                    cfg['kernel'], '/periodic' if cfg['periodic'] else '')
+
+
 def worker(args):
-    cfg, seed, ncases, extra = args
+    """one process per configuration; the result goes to a file, the history
+    being run is recorded first so that a crash of the real code (segfault in
+    the compiled evaluator) can be attributed to a concrete input"""
+    cfg, seed, ncases, extra, outdir, idx = args
     t0 = time.time()
     rng = random.Random('%d/%s' % (seed, json.dumps(cfg, sort_keys=True)))
     recs = []
+    res = {'cfg': cfg, 'recs': recs}
+    cur = os.path.join(outdir, 'current-%d.json' % idx)
     try:
         cases = list(extra) + [gen_case(rng, cfg) for _ in range(ncases)]
         for case in cases:
             if os.getppid() != PARENT:      # the check timed out / was killed
                 os._exit(1)
+            with open(cur, 'w') as fh:
+                json.dump(case, fh)
             rec = run_case(case, None)
             rec['fingerprint'] = json.dumps(case, sort_keys=True)[:200000]
             if rec['fails'] or rec['disagreements']:
                 rec['case'] = case
             recs.append(rec)
     except BaseException:       # noqa
-        return {'cfg': cfg, 'error': traceback.format_exc(), 'recs': recs,
-                'wall': time.time() - t0}
-    return {'cfg': cfg, 'recs': recs, 'wall': time.time() - t0}
+        res['error'] = traceback.format_exc()
+    res['wall'] = time.time() - t0
+    tmp = os.path.join(outdir, 'result-%d.json.tmp' % idx)
+    with open(tmp, 'w') as fh:
+        json.dump(res, fh)
+    os.replace(tmp, os.path.join(outdir, 'result-%d.json' % idx))
+    sys.stdout.flush()
+    os._exit(0)
+
+
+def run_jobs(jobs, outdir, nproc):
+    """run worker(job) for every job in its own process, at most nproc at a
+    time; returns the list of results (a dict with 'crash' when the process
+    died without a result)"""
+    os.makedirs(outdir, exist_ok=True)
+    ctx = mp.get_context('fork')
+    pending = list(enumerate(jobs))
+    running = {}
+    results = [None] * len(jobs)
+    while pending or running:
+        while pending and len(running) < nproc:
+            idx, job = pending.pop(0)
+            for f in ('current-%d.json' % idx, 'result-%d.json' % idx):
+                try:
+                    os.unlink(os.path.join(outdir, f))
+                except OSError:
+                    pass
+            pr = ctx.Process(target=worker, args=(job + (outdir, idx),))
+            pr.start()
+            running[idx] = pr
+        for idx, pr in list(running.items()):
+            pr.join(timeout=0.2)
+            if pr.is_alive():
+                continue
+            del running[idx]
+            rf = os.path.join(outdir, 'result-%d.json' % idx)
+            if os.path.exists(rf):
+                results[idx] = json.load(open(rf))
+            else:
+                case = None
+                cf = os.path.join(outdir, 'current-%d.json' % idx)
+                if os.path.exists(cf):
+                    try:
+                        case = json.load(open(cf))
+                    except ValueError:
+                        case = None
+                results[idx] = {'cfg': jobs[idx][0], 'recs': [], 'wall': 0.0,
+                                'crash': pr.exitcode, 'case': case}
+    return results
 
 
 def corpus(cfg):
@@ -1080,8 +1138,17 @@ def corpus(cfg):
 def merge(R, results):
     for res in results:
         cfg = res['cfg']
-        tag = '%s/%s/%dD/%darr/%s%s' % (cfg['api'], cfg['method'], cfg['dim'], cfg['narr'],
-                                         cfg['kernel'], '/periodic' if cfg['periodic'] else '')
+        tag = cfg_tag(cfg)
+        if 'crash' in res:
+            code = res['crash']
+            if code in (-11, -6, -7, -8, -4) and res.get('case') is not None:
+                # SIGSEGV/ABRT/BUS/FPE/ILL inside the real code on a valid history
+                R.prop_fail('C14:%s:crash' % cfg['method'], res['case'],
+                            'interpolation of this history returns values',
+                            'the process died with signal %d' % (-code))
+                R.count('config-crashed:' + tag)
+                continue
+            raise SystemExit('worker for %s died with exit code %r' % (tag, code))
         if 'error' in res:
             raise SystemExit('worker for %s failed:\n%s' % (tag, res['error']))
         R.count('config:' + tag, len(res['recs']))
@@ -1110,7 +1177,14 @@ def main():
     if a.replay:
         rp = json.load(open(a.replay))
         case = rp['case']
-        rec = run_case(case, None)
+        outdir = os.path.join(a.work, 'c14-replay')
+        res = run_jobs([(case['cfg'], 0, 0, [case])], outdir, 1)[0]
+        if 'crash' in res:
+            print('the history kills the process: exit code %r' % res['crash'])
+            sys.exit(1)
+        if 'error' in res:
+            raise SystemExit(res['error'])
+        rec = res['recs'][0]
         print(json.dumps({'property_failures': rec['fails'],
                           'disagreements': [{'where': d['where'], 'model': d['model'][:200],
                                              'impl': d['impl'][:200]}
@@ -1127,17 +1201,14 @@ def main():
         ncases *= 2
     jobs = [(cfg, a.seed, ncases, corpus(cfg)) for cfg in cfgs]
     nproc = min(len(jobs), max(2, (os.cpu_count() or 4) - 1), 16)
-    with mp.get_context('fork').Pool(nproc) as pool:
-        results = pool.map(worker, jobs, chunksize=1)
-    merge(R, results)
+    outdir = os.path.join(a.work, 'c14-results')
+    merge(R, run_jobs(jobs, outdir, nproc))
     if a.broken or R.d['disagreements']:
         # wider failing-input search on the real code, same configurations
         # (they are compiled already), other seeds
         jobs = [(cfg, a.seed + 1000003, ncases * 2, []) for cfg in cfgs]
-        with mp.get_context('fork').Pool(nproc) as pool:
-            results = pool.map(worker, jobs, chunksize=1)
         before = len(R.d['property_failures'])
-        merge(R, results)
+        merge(R, run_jobs(jobs, outdir + '-search', nproc))
         R.d['search'] = {'extra_histories': len(jobs) * ncases * 2,
                          'found': len(R.d['property_failures']) - before}
     R.write(a.out)
